@@ -925,8 +925,84 @@ func genRegistryLocks(root *pkgSrc) {
 		}
 		fmt.Fprintf(&b, "  ⟨%s, %d, .%s, %s⟩%s  -- %s: %s (line %s), leaves %s %s\n", leanText(e.fn), e.idx, e.held, leanBool(e.sure), sep, e.fn, e.kind, e.line, e.held, e.mutex)
 	}
+	// the two halves of a registration: the append to the order slice and the store into the map
+	b.WriteString("]\n\n/-- The register functions of the registries that keep an order slice: ⟨function, writes of the order slice, stores into\n    the map that follow the first of them, return statements between that first order write and the last map store (source\n    order, function literals not counted), shape understood⟩. A return between the two halves leaves a name in the order\n    slice that has no entry. -/\n")
+	b.WriteString("def registryStorePairs : List StorePair := [\n")
+	pairFns := []string{"promptManager.registerPrompt", "resourceManager.registerResource", "resourceManager.registerResources", "toolManager.registerTool"}
+	for i, fn := range pairFns {
+		sep := ","
+		if i == len(pairFns)-1 {
+			sep = ""
+		}
+		ow, ms, rb, sure := lsStorePair(root, fn)
+		fmt.Fprintf(&b, "  ⟨%s, %d, %d, %d, %s⟩%s  -- %s: %d order write(s), %d map store(s) after, %d return(s) between\n", leanText(fn), ow, ms, rb, leanBool(sure), sep, fn, ow, ms, rb)
+	}
 	b.WriteString("]\n\nend Mcp.Gen\n")
 	writeIfChanged("RegistryLocks.lean", b.String())
+}
+
+// lsStorePair: in a register function, the assignments to the receiver's *Order field, the element stores into the
+// receiver's map field (m.x[k] = …) positioned after the first order write, and the return statements between the first
+// order write and the last such store.  Anything odd (no such function, an order write with no store after it, a loop or
+// goto around them) = not understood.
+func lsStorePair(root *pkgSrc, fn string) (orderWrites, mapStores, returnsBetween int, sure bool) {
+	fd, _ := root.funcDecl(fn)
+	if fd == nil || fd.Body == nil || fd.Recv == nil || len(fd.Recv.List) == 0 || len(fd.Recv.List[0].Names) == 0 {
+		return 0, 0, 0, false
+	}
+	rv := fd.Recv.List[0].Names[0].Name
+	recvField := func(e ast.Expr) string {
+		if sel, ok := e.(*ast.SelectorExpr); ok {
+			if id, ok := sel.X.(*ast.Ident); ok && id.Name == rv {
+				return sel.Sel.Name
+			}
+		}
+		return ""
+	}
+	var firstOrder, lastStore token.Pos
+	var returns []token.Pos
+	sure = true
+	var visit func(n ast.Node) bool
+	visit = func(n ast.Node) bool {
+		switch x := n.(type) {
+		case *ast.FuncLit:
+			return false
+		case *ast.ForStmt, *ast.RangeStmt, *ast.LabeledStmt:
+			sure = false
+		case *ast.BranchStmt:
+			if x.Tok == token.GOTO {
+				sure = false
+			}
+		case *ast.ReturnStmt:
+			returns = append(returns, x.Pos())
+		case *ast.AssignStmt:
+			for _, l := range x.Lhs {
+				if f := recvField(l); strings.HasSuffix(f, "Order") {
+					orderWrites++
+					if firstOrder == token.NoPos {
+						firstOrder = x.Pos()
+					}
+				}
+				if ix, ok := l.(*ast.IndexExpr); ok {
+					if f := recvField(ix.X); f != "" && !strings.HasSuffix(f, "Order") && firstOrder != token.NoPos {
+						mapStores++
+						lastStore = x.Pos()
+					}
+				}
+			}
+		}
+		return true
+	}
+	ast.Inspect(fd.Body, visit)
+	if orderWrites == 0 || mapStores == 0 {
+		return orderWrites, mapStores, 0, false
+	}
+	for _, r := range returns {
+		if r > firstOrder && r < lastStore {
+			returnsBetween++
+		}
+	}
+	return orderWrites, mapStores, returnsBetween, sure
 }
 
 type lsExit struct {
